@@ -1,5 +1,6 @@
 """C12 — cached_property computes once, serves one value to all, recomputes after del."""
 import asyncio
+import sys
 import functools
 import itertools
 import warnings
@@ -74,7 +75,16 @@ class _World:
         async def getter(inst):
             r = len(world.runs)
             cur = inst.__dict__.get("data")
-            rec = [inst.iid, "running", cur]
+            # the placeholder on whose behalf the getter runs: the `self` of the library frame awaiting this coroutine
+            # (falls back to the slot content if the library is restructured)
+            owner = cur
+            try:
+                back = sys._getframe(1).f_locals.get("self")
+                if back is not None and type(back).__name__ == "_FutureCachedPropertyValue":
+                    owner = back
+            except Exception:
+                pass
+            rec = [inst.iid, "running", owner]
             world.runs.append(rec)
             if isinstance(cur, AwaitableValue):
                 world.viol.append(["getter-ran-while-cached", {"run": r, "cached": _v(cur.value)}])
